@@ -2,3 +2,4 @@ import Pyxv.Model.Base
 import Pyxv.Model.Xml
 import Pyxv.Model.Json
 import Pyxv.Model.OpsXml
+import Pyxv.Generated.Tables
